@@ -1,6 +1,7 @@
 package vg
 
 import (
+	"bytes"
 	"encoding/json"
 	"fmt"
 	"net/http"
@@ -29,7 +30,9 @@ type HistCfg struct {
 	Burst    int            `json:"burst"`
 	W        map[string]int `json:"w"` // operation weights
 	// Outcome weights for get answers: ok, err, timeout, notfound
-	GetOutcome    [4]int         `json:"get_outcome"`
+	GetOutcome [4]int `json:"get_outcome"`
+	// Outcome weights for access answers: grant, get:false, RES error, timeout
+	AccessOutcome [4]int         `json:"access_outcome"`
 	AvoidF        bool           `json:"avoid_f"`      // no unsubscribe while a request on the rid may be pending
 	AvoidUnsend   bool           `json:"avoid_unsend"` // no unsubscribe / ref-removing event while requests are outstanding
 	Pct           int            `json:"pct"`
@@ -214,8 +217,20 @@ func (h *histRun) answer(r *BusReq) {
 	}
 	switch r.Kind {
 	case "access":
-		h.logf("answer access.%s grant", r.Name)
-		h.g.Bus.Reply(r, []byte(`{"result":{"get":true,"call":"*"}}`), nil)
+		switch h.rng.Weighted(h.cfg.AccessOutcome[:]) {
+		case 1:
+			h.logf("answer access.%s deny", r.Name)
+			h.g.Bus.Reply(r, []byte(`{"result":{"get":false,"call":"*"}}`), nil)
+		case 2:
+			h.logf("answer access.%s error", r.Name)
+			h.g.Bus.Reply(r, []byte(`{"error":{"code":"t.accessFailed","message":"Access failed"}}`), nil)
+		case 3:
+			h.logf("answer access.%s timeout", r.Name)
+			h.g.Bus.Timeout(r)
+		default:
+			h.logf("answer access.%s grant", r.Name)
+			h.g.Bus.Reply(r, []byte(`{"result":{"get":true,"call":"*"}}`), nil)
+		}
 	case "get":
 		switch h.rng.Weighted(h.cfg.GetOutcome[:]) {
 		case 0:
@@ -333,6 +348,25 @@ func (h *histRun) connect(ver string) *WSClient {
 	rc := NewRefClient(c.Idx, ParseVersion(ver))
 	if os.Getenv("VG_RCDEBUG") == fmt.Sprint(c.Idx) {
 		rc.Debug = true
+	}
+	cl := c
+	rc.RootErrorKeeps = func(rid string, t int64) (bool, bool) {
+		name, _ := ridName(rid)
+		name = strings.Replace(name, "{cid}", cl.CID, -1)
+		// the most recent access answer for this connection and resource
+		var last *BusReq
+		for _, r := range h.g.Bus.Reqs() {
+			if r.Kind == "access" && r.CID == cl.CID && r.Name == name && r.Done && (last == nil || r.AnsT > last.AnsT) {
+				last = r
+			}
+		}
+		if last == nil {
+			return false, false
+		}
+		if last.Outcome == "reply" && bytes.Contains(last.Reply, []byte(`"get":true`)) {
+			return true, true // access granted: the error is the resource's own, the subscription stays
+		}
+		return false, true
 	}
 	h.rcs[c] = rc
 	h.maybePending[c.Idx] = map[string]bool{}
@@ -647,6 +681,9 @@ func newHistRun(cfg HistCfg) (*histRun, *HistResult) {
 	if h.cfg.GetOutcome == [4]int{} {
 		h.cfg.GetOutcome = [4]int{100, 0, 0, 0}
 	}
+	if h.cfg.AccessOutcome == [4]int{} {
+		h.cfg.AccessOutcome = [4]int{100, 0, 0, 0}
+	}
 	g, err := NewGate(GateOpts{
 		Seed: cfg.Seed, Pct: cfg.Pct, SitePct: cfg.SitePct, Trace: cfg.Trace,
 		UnsubDelay: time.Duration(cfg.UnsubDelayMs) * time.Millisecond,
@@ -942,8 +979,11 @@ func (h *histRun) checkQuiescent(final bool) {
 			continue
 		}
 		for _, v := range rc.Viol {
-			if v.Prop == "C02" && (v.Sig == "strayEvent" || v.Sig == "dangling") && h.hasNote("sub.unsend", c.CID, v.RID) {
+			if v.Prop == "C02" && (v.Sig == "strayEvent" || v.Sig == "dangling") && (h.hasNote("sub.unsend", c.CID, v.RID) || (v.Holder != "" && h.hasNote("sub.unsend", c.CID, v.Holder))) {
 				v.Sig += ".afterUnsend"
+			}
+			if v.Prop == "C02" && v.DropT > 0 && rc.TargetPendingAt(v.RID, v.DropT) {
+				v.Sig += ".droppedWhilePending"
 			}
 			if h.hasNote("populate.deleted", c.CID, v.RID) {
 				v.Sig += ".populateDeleted"
